@@ -240,11 +240,47 @@ EXTRA2 = {
 }
 
 
+# round 7 and the dependency closure
+EXTRA3 = {
+    'C01': ' Round 7: transport overflow threshold between half full and full (C01.R17), termios built from zero without input '
+           'translation (C01.R18), CRC 0 at every part (re-)entry (C01.R19), unescape mapping by evaluation (C01.R20).',
+    'C02': ' Round 7: overflow threshold (C02.R17), CRC start (C02.R18), unescape mapping (C02.R19); via the call graph: address '
+           'classes, transport accounting, raw serial mode (C02.H3/H7/H13).',
+    'C03': ' Round 7: master numbering (C03.R16), priority class = low nibble for all master pairs (C03.R17), clock unit '
+           '(C03.R18); via the call graph: arbitration disarm on error (C03.H14).',
+    'C04': ' Round 7: receive deadline (C04.R9), error returns of startArbitration disarmed (C04.R10), clock unit (C04.R11).',
+    'C05': ' Round 7: telegram layout accessors (C05.R10).',
+    'C06': ' Round 7: errno discipline of the parse helpers (C06.R12); via the call graph: telegram layout (C06.H1).',
+    'C07': ' Round 7: double precision kept until the raw integer (C07.R10); via the call graph: telegram layout (C07.H1).',
+    'C09': ' Round 7: master field count for the requested name (C09.R10), per-file loader state (C09.R13); via the call graph: '
+           'address classes (C09.H3).',
+    'C10': ' Round 7: slave index relative and per name (C10.R9), output index advances per non-ignored field (C10.R10).',
+    'C11': ' Round 7: CRC 0 at every part (re-)entry (C11.R6), unescape mapping by evaluation (C11.R7 and the clause of C11.R3).',
+    'C12': ' Round 7: per-file loader state (C12.R7).',
+    'C13': ' Round 7: case folding of all letters (C13.R10); via the call graph: telegram layout (C13.H1).',
+    'C14': ' Round 7: overflow threshold (C14.R9), clock unit (C14.R10); via the call graph: receive deadline, raw serial mode '
+           '(C14.H9/H13).',
+    'C15': ' Round 7: master numbering (C15.R13); via the call graph: telegram layout, CRC table (C15.H1/H2).',
+    'C16': ' Round 7: multi-line ACL fields (C16.R10), the #level marker survives the suffix insertion (C16.R11); via the call '
+           'graph: case folding, per-file loader state (C16.H10/H12).',
+    'C17': ' Round 7: first priority queues the message and no setPollPriority result is discarded (C17.R5), the anchor is '
+           'assigned, not accumulated (C17.R3).',
+    'C18': ' Round 7: substr starts within the known length (C18.R11), buffer handed to add() written in the same pass (C18.R12), '
+           'escape = two width-1 conversions (C18.R13); via the call graph: case folding (C18.H10).',
+    'C19': ' Round 7: multi-line fields (C19.R8), divisor written signed (C19.R9), parseInt prefix contract (C19.R10); via the call '
+           'graph: errno, per-file loader state (C19.H4/H12).',
+    'C20': ' Round 7: telegram layout incl. the symbol_t wrap of isComplete (C20.R17), substr starts within the known length '
+           '(C20.R18).',
+}
+
+
 def main():
     checks = []
     for pid in sorted(CHECKS):
         c = dict(CHECKS[pid])
-        c['text'] = c['text'] + EXTRA.get(pid, '') + EXTRA2.get(pid, '')
+        c['text'] = c['text'] + EXTRA.get(pid, '') + EXTRA2.get(pid, '') + EXTRA3.get(pid, '')
+        if pid in ('C01', 'C02', 'C03', 'C05', 'C06', 'C07', 'C08', 'C09', 'C10', 'C11', 'C13', 'C14', 'C15', 'C19', 'C20'):
+            c['technique'] += '; finite evaluation of inline accessors / conditions from the typed AST on enumerated model states'
         checks.append({
             'property_id': pid,
             'quick_cmd': 'python3 engine/py/check.py %s --tier quick' % pid,
@@ -269,7 +305,9 @@ def main():
         'engines': [{
             'name': 'ebusfacts+rules', 'path': 'engine', 'serves_properties': sorted(CHECKS),
             'kind_free_text': 'libTooling fact extractor (typed AST, CFG, evaluated constants) + Python rule engine '
-                              '(dominance, path exploration with correlated atoms, typestate, intervals, table comparison)'}],
+                              '(dominance, path exploration with correlated atoms, typestate, intervals, table comparison, evaluation of '
+                              'small accessors and conditions from the typed AST on enumerated model states, helper rules that '
+                              'follow the call graph)'}],
         'checks': checks,
         'not_applicable': [{'property_id': k, 'reason': v} for k, v in sorted(NOT_APPLICABLE.items())],
         'notes': 'every check decides named structural clauses of its property from /repo\'s current source (static '
